@@ -245,14 +245,97 @@ def correspondence(ctx, room, rad, rec, src):
     ctx.sample({'sides': room['sides'], 'walls': room['keep'], 'patches': P, 'K': K, 'S': S, 'bands': room['B']}, limit=3)
 
 
+def corr_e2e(ctx, room, rad, rec, src):
+    """The composed model `runKang` (driver command `kangpipe`) against the real run, band by band:
+    form factors, first-order energy and its bin, every order's patch histograms, the receiver
+    response without and with direct sound — from the bare scene description only."""
+    sp = common.import_repo()
+    pats = flat(rad)
+    P = len(pats)
+    ff = ff_matrix(rad)
+    c, fs, K = room['c'], room['fs'], room['K']
+    S = rad.patch_list[0].E_matrix.shape[3]
+    walls0 = sp.testing.shoebox_room_stub(*room['sides'])
+    wpts = np.array([transform(walls0[w].pts, room) for w in room['keep']])
+    wnrm = np.array([tvec(walls0[w].normal, room) for w in room['keep']])
+    ir = rad.energy_at_receiver(rec, ignore_direct=True)
+    r = float(np.linalg.norm(rec.position - rad.source.position))
+    full = rad.energy_at_receiver(rec, ignore_direct=False) if int(r / c * fs) < S else None
+    lines = []
+    for b in range(room['B']):
+        ab = [room['absorption'][w][b] for w in room['keep']]
+        lines.append(' '.join(['kangpipe', str(len(room['keep'])), fhex(1.0), fhexs(wpts), fhexs(wnrm), fhexs(ab),
+                               fhexs(np.ones(len(ab))), fhexs(np.full(len(ab), room['att'][b])), fhex(c), fhex(fs),
+                               str(S), str(K), fhex(float(src.sound_power)), fhexs(src.position), fhexs(rec.position)]))
+    for b, line in enumerate(common.run_driver(lines)):
+        if not line.startswith('ok '):
+            ctx.cmp.tag('corr:kang end to end (band %d)' % b, 'run succeeds', line[:60])
+            continue
+        sec = [x.strip().split(' ') for x in line[3:].split('|')]
+        ctx.cmp.ints('corr:kang e2e patch count', [P], [int(sec[0][0])])
+        if int(sec[0][0]) != P:
+            continue
+        ctx.cmp.ulp('corr:kang e2e form factors', ff.ravel(), common.parse_floats(sec[1]), rtol=1e-11, atol=1e-300)
+        e0 = np.array([rad.patch_list[w].E_matrix[b, 0, i].sum() for w, i, _ in pats])
+        ctx.cmp.ulp('corr:kang e2e first-order energy', e0, common.parse_floats(sec[2]), rtol=1e-11, atol=1e-300)
+        bins = [int(np.flatnonzero(rad.patch_list[w].E_matrix[b, 0, i])[0]) if np.any(rad.patch_list[w].E_matrix[b, 0, i]) else -1 for w, i, _ in pats]
+        mb = [int(x) for x in sec[3]]
+        ctx.cmp.ints('corr:kang e2e first-order bins', [x for x, y in zip(bins, mb) if x >= 0], [y for x, y in zip(bins, mb) if x >= 0])
+        od = np.array([E_of(rad, b, k) for k in range(K + 1)]).ravel()
+        mo = np.array(common.parse_floats(sec[4]))
+        scale = max(float(np.abs(od).max()), 1e-300)
+        ctx.cmp.ulp('corr:kang e2e order histograms', od, mo, rtol=1e-10, atol=1e-13 * scale)
+        mr = np.array(common.parse_floats(sec[5]))
+        ctx.cmp.ulp('corr:kang e2e receiver response', ir[b], mr, rtol=1e-10, atol=1e-13 * max(float(np.abs(ir[b]).max()), 1e-300))
+        if full is not None and sec[7] != ['-']:
+            mf = np.array(common.parse_floats(sec[7]))
+            ctx.cmp.ulp('corr:kang e2e response with direct sound', full[b], mf, rtol=1e-10, atol=1e-13 * max(float(np.abs(full[b]).max()), 1e-300))
+        ctx.cmp.tag('corr:kang e2e direct sound present', full is not None, sec[7] != ['-'])
+    ctx.count('e2e_rooms')
+
+
+def corr_refusal(ctx, n):
+    """Histograms too short for a delay the engine has to index or roll with: the implementation
+    raises (IndexError in init_energy_exchange / ValueError in _add_delay) exactly where the
+    composed model returns `none`; otherwise both succeed."""
+    sp = common.import_repo()
+    lines, meta = [], []
+    for _ in range(n):
+        room = make_room(ctx.rng, B=1)
+        diag = float(np.linalg.norm(room['sides']))
+        room['S'] = int(ctx.rng.integers(1, int(diag / room['c'] * room['fs']) + 3))
+        try:
+            rad, src, rec = build(room)
+            rad.energy_at_receiver(rec, ignore_direct=True)
+            got = 'ok'
+        except (IndexError, ValueError):
+            got = 'raises'
+        ctx.oracle_evals += 1
+        walls0 = sp.testing.shoebox_room_stub(*room['sides'])
+        wpts = np.array([walls0[w].pts for w in room['keep']])
+        wnrm = np.array([walls0[w].normal for w in room['keep']])
+        ab = [room['absorption'][w][0] for w in room['keep']]
+        S = int((room['S'] + 0.5) / room['fs'] * room['fs'])
+        lines.append(' '.join(['kangpipe', str(len(room['keep'])), fhex(1.0), fhexs(wpts), fhexs(wnrm), fhexs(ab),
+                               fhexs(np.ones(len(ab))), fhexs(np.full(len(ab), room['att'][0])), fhex(room['c']), fhex(room['fs']),
+                               str(S), str(room['K']), fhex(1.0), fhexs(room['src']), fhexs(room['rec'])]))
+        meta.append(got)
+        ctx.count('refusal.' + got)
+    for got, line in zip(meta, common.run_driver(lines)):
+        ctx.cmp.tag('corr:kang run refused for a histogram shorter than a delay', got, 'ok' if line.startswith('ok ') else 'raises')
+    ctx.cases += 1
+
+
 def run(ctx):
     n = 4 if ctx.tier == 'quick' else 40
     for k in range(n):
         room = make_room(ctx.rng, n_walls=[6, 2, 3, 4][k % 4] if ctx.tier == 'quick' else None)
         rad, src, rec = build(room)
         correspondence(ctx, room, rad, rec, src)
+        corr_e2e(ctx, room, rad, rec, src)
         if recursion_oracle(ctx, room, rad):
             invariance_oracle(ctx, room, rad, rec)
+    corr_refusal(ctx, 12 if ctx.tier == 'quick' else 150)
 
 
 def oracle(ctx, budget_s=60):
